@@ -76,6 +76,15 @@ def check_remove_overlapping(ctx):
     if not pair:
         return
     x, y = pair
+    # ---- EXIT: the only ways out are the loop condition and the not-closer break; early returns may only depend on the number of members
+    from .empty import nonempty_guard
+
+    for r_ in [s_ for s_ in fv.statements() if isinstance(s_, ast.Return)]:
+        conds = si.effective_guards(r_)
+        harmless = all(("len(self)" in U(t) or U(t) in ("self", "not self")) and not (names_in(t) - {"self", "len"}) for t, p in conds) and bool(conds)
+        if not harmless:
+            ctx.violate("GUARDSHAPE", site + ":exit", (fi, r_),
+                        f"early `return` under {[U(t) for t, p in conds]}: the method stops without examining the exact pairwise surface distances (e.g. a nearest-centre pre-check misses a large droplet overlapping a droplet that is not its nearest centre)")
     pops = [c for c in fv.calls() if isinstance(c.func, ast.Attribute) and c.func.attr == "pop" and U(c.func.value) == "self" and any(z is c for z in ast.walk(wl))]
     others = _self_mutations(fi)
     ctx.decide(len(pops) >= 1 and not others, "EFFECT", site + ":pop-only", (fi, others[0]) if others else fi,
@@ -306,8 +315,12 @@ def check_from_random(ctx):
     for g in inner:
         rets = [s for s in ast.walk(g.node) if isinstance(s, ast.Return)]
         seen.add(U(rets[0].value) if rets else "")
-    bn = [s for s in fv.statements() if isinstance(s, ast.Assign) and U(s.value).startswith("np.atleast_2d(")]
+    bn = [s for s in fv.statements() if isinstance(s, ast.Assign) and "atleast_2d" in U(s.value)]
     b = U(bn[0].targets[0]) if bn else "bnds"
+    bdefs = [s for s in fv.statements() if isinstance(s, ast.Assign) and U(s.targets[0]) == b]
+    ok_b = len(bdefs) == 1 and U(bdefs[0].value) == f"np.atleast_2d({fi.params[2] if len(fi.params) > 2 else 'grid_or_bounds'})"
+    ctx.decide(ok_b, "RANDOM", site + ":bounds", (fi, bdefs[0]) if bdefs else fi, "bounds are taken as given: one (lower, upper) row per axis",
+               f"the bounds array is `{U(bdefs[0].value)[:70] if bdefs else '?'}`, not the given (lower, upper) pairs: re-ordering or transforming it (e.g. sorting across axes) moves droplets outside the requested region")
     ok_pos = len(inner) == 2 and len({g.name for g in inner}) == 1 and seen == {"grid_or_bounds.get_random_point(rng=rng)", f"rng.uniform({b}[:, 0], {b}[:, 1])"}
     ctx.decide(ok_pos, "RANDOM", site + ":position", fi, "positions: grid.get_random_point(rng) or uniform(lower bounds, upper bounds)",
                f"random positions are drawn as {sorted(seen)}; they must be uniform between the lower (column 0) and upper (column 1) bounds / grid.get_random_point")
@@ -385,6 +398,11 @@ def check_safe_removal(ctx, qual, attr_test, op_types=(ast.LtE,), what="", param
     site = fi.qualname
     pops = [c for c in fv.calls() if isinstance(c.func, ast.Attribute) and c.func.attr == "pop" and U(c.func.value) == "self"]
     others = _self_mutations(fi)
+    for mc in pops + [o for o in others if isinstance(o, ast.Call)]:
+        lpq_ = si.enclosing(mc, (ast.For,))
+        if lpq_ is not None and U(lpq_[0].iter) in ("self", "enumerate(self)", "iter(self)"):
+            ctx.violate(rule, site, (fi, lpq_[0]), f"`{U(mc)[:40]}` removes members while iterating forward over the list itself (`{U(lpq_[0].iter)}`): the member after every removed one is skipped, so adjacent candidates for removal survive")
+            return
     if others or len(pops) != 1:
         # a different (e.g. comprehension based) implementation: not judged by this rule
         if others:
@@ -703,3 +721,16 @@ def check_linked_data(ctx):
             ok_link = tgt == f"self[{i}].data" and val == f"{arr}[{i}]"
     ctx.decide(len(src) == 1 and ok_link, "LINK", fi.qualname, fi, "row i of the returned array becomes the storage of member i",
                "get_linked_data does not bind member i to row i of the single array it returns")
+
+
+def check_order_free(ctx, quals=(f"{EM}.EmulsionTimeCourse.get_emulsion", f"{EM}.Emulsion.get_size_statistics", f"{EM}.Emulsion.total_droplet_volume", f"{TR}.DropletTrack.get_position")):
+    """summary queries must not presuppose an ordering of the members"""
+    m = ctx.model
+    BANNED = {"searchsorted", "bisect", "bisect_left", "bisect_right", "insort", "digitize"}
+    for q in quals:
+        if not m.has_func(q):
+            continue
+        fi = m.func(q)
+        bad = [c for c in ast.walk(fi.node) if isinstance(c, ast.Call) and (dotted(c.func) or "").split(".")[-1] in BANNED]
+        ctx.decide(not bad, "ORDERFREE", q, (fi, bad[0]) if bad else fi, "no binary search / sortedness assumption over the members",
+                   f"`{U(bad[0])[:60] if bad else ''}` presupposes sorted members: for a collection whose times are not monotonic (explicit out-of-order times, re-glued slices) the query no longer equals its definition over the members")
